@@ -21,6 +21,9 @@ Requests:
   reg <name> CONTENT           TemplateRegistry::register                 -> ok | err name|dup|def|unreg
   dereg <name> | clear         -> ok
   has <name>                   TemplateRegistry::contains                 -> 1 | 0
+  nbirth                       closes a birth block: the template definition metrics of the NBIRTH the
+                               node hands over after the callback, sorted by name
+                               -> <k> | <name> <datatype> T TMPL | ...
 -/
 import SradModel.Model.Templ
 import SradModel.Drv.Util
@@ -157,6 +160,29 @@ def parseNamedContent (name : String) (rest : List String) : Option (Bytes × TD
   | some n, some (c, []) => some (n, { version := c.version, metrics := c.metrics, params := c.params })
   | _, _ => none
 
+/-- lexicographic order on byte strings (`Vec<u8>: Ord`) -/
+def bytesLe : Bytes → Bytes → Bool
+  | [], _ => true
+  | _ :: _, [] => false
+  | a :: s, b :: t => a < b || (a == b && bytesLe s t)
+
+def insertByName (e : Bytes × MV) : List (Bytes × MV) → List (Bytes × MV)
+  | [] => [e]
+  | x :: t => if bytesLe e.1 x.1 then e :: x :: t else x :: insertByName e t
+
+/-- stable insertion sort by name -/
+def sortByName (l : List (Bytes × MV)) : List (Bytes × MV) :=
+  l.foldr insertByName []
+
+def showAnnounced (e : Bytes × MV) : String :=
+  match e.2 with
+  | .templ t => joinWith " " (hex e.1 :: toString templateCode :: "T" :: showTmpl t)
+  | .other tok => joinWith " " [hex e.1, toString templateCode, "O", tok]
+
+/-- the template definition metrics of an NBIRTH for registry `r` -/
+def showNBirth (r : Registry) : String :=
+  joinWith " | " (toString r.length :: (sortByName (announced r)).map showAnnounced)
+
 def stepTempl (r : Registry) : List String → Registry × String
   | ["new"] => ([], "ok")
   | "def" :: rest =>
@@ -196,6 +222,7 @@ def stepTempl (r : Registry) : List String → Registry × String
     | some n => (deregister r n, "ok")
     | none => (r, "bad-op")
   | ["clear"] => (clear r, "ok")
+  | ["nbirth"] => (r, showNBirth r)
   | ["has", name] =>
     match unhex name with
     | some n => (r, if r.has n then "1" else "0")
